@@ -18,16 +18,17 @@ structure RouterFrame (w w' : W) : Prop where
   nextAid : w'.nextAid = w.nextAid
   stopped : w'.stopped = w.stopped
   inbox : w'.inbox = w.inbox
+  handler : w'.handler = w.handler
 
-theorem RouterFrame.refl (w : W) : RouterFrame w w := ⟨rfl, rfl, rfl, rfl, rfl, rfl, rfl, rfl, rfl, rfl, rfl, rfl⟩
+theorem RouterFrame.refl (w : W) : RouterFrame w w := ⟨rfl, rfl, rfl, rfl, rfl, rfl, rfl, rfl, rfl, rfl, rfl, rfl, rfl⟩
 
 theorem availChange_frame (w : W) (wid : Nat) (b : Bool) : RouterFrame w (w.availChange wid b) := by
   unfold W.availChange
   split
   · split
     · exact RouterFrame.refl w
-    · exact ⟨rfl, rfl, rfl, rfl, rfl, rfl, rfl, rfl, rfl, rfl, rfl, rfl⟩
-  · exact ⟨rfl, rfl, rfl, rfl, rfl, rfl, rfl, rfl, rfl, rfl, rfl, rfl⟩
+    · exact ⟨rfl, rfl, rfl, rfl, rfl, rfl, rfl, rfl, rfl, rfl, rfl, rfl, rfl⟩
+  · exact ⟨rfl, rfl, rfl, rfl, rfl, rfl, rfl, rfl, rfl, rfl, rfl, rfl, rfl⟩
 
 theorem chooseTargetWorker_frame (w : W) (j : Job) (hint : Option Nat) :
     RouterFrame w (w.chooseTargetWorker j hint).2 := by
@@ -42,19 +43,19 @@ theorem chooseTargetWorker_frame (w : W) (j : Job) (hint : Option Nat) :
         · exact RouterFrame.refl w
   · split
     · exact RouterFrame.refl w
-    · exact ⟨rfl, rfl, rfl, rfl, rfl, rfl, rfl, rfl, rfl, rfl, rfl, rfl⟩
+    · exact ⟨rfl, rfl, rfl, rfl, rfl, rfl, rfl, rfl, rfl, rfl, rfl, rfl, rfl⟩
   · split
     · exact RouterFrame.refl w
     · split
       · exact RouterFrame.refl w
       · split
         · exact RouterFrame.refl w
-        · exact ⟨rfl, rfl, rfl, rfl, rfl, rfl, rfl, rfl, rfl, rfl, rfl, rfl⟩
+        · exact ⟨rfl, rfl, rfl, rfl, rfl, rfl, rfl, rfl, rfl, rfl, rfl, rfl, rfl⟩
   · split
     · exact RouterFrame.refl w
     · split
       · exact RouterFrame.refl w
-      · exact ⟨rfl, rfl, rfl, rfl, rfl, rfl, rfl, rfl, rfl, rfl, rfl, rfl⟩
+      · exact ⟨rfl, rfl, rfl, rfl, rfl, rfl, rfl, rfl, rfl, rfl, rfl, rfl, rfl⟩
   · split
     · exact RouterFrame.refl w
     · exact RouterFrame.refl w
@@ -68,11 +69,11 @@ structure RouteFrame (w w' : W) : Prop where
   drain : w'.drain = w.drain
   stopped : w'.stopped = w.stopped
   inbox : w'.inbox = w.inbox
-  hasHandler : w'.env.hasHandler = w.env.hasHandler
+  handler : w'.handler = w.handler
   now : w'.env.now = w.env.now
 
-theorem getNextNonExpired_now' (mq : List Job) (pend : List Nat) (e : Env) :
-    (getNextNonExpired mq pend e).2.2.2.now = e.now := by
+theorem getNextNonExpired_now' {h : Option Nat} (mq : List Job) (pend : List Nat) (e : Env) :
+    (getNextNonExpired h mq pend e).2.2.2.now = e.now := by
   induction mq generalizing pend e with
   | nil => rfl
   | cons j rest ih =>
@@ -81,27 +82,16 @@ theorem getNextNonExpired_now' (mq : List Job) (pend : List Nat) (e : Env) :
     · rfl
     · rw [ih]; rfl
 
-theorem getNextNonExpired_hasHandler (mq : List Job) (pend : List Nat) (e : Env) :
-    (getNextNonExpired mq pend e).2.2.2.hasHandler = e.hasHandler := by
-  induction mq generalizing pend e with
-  | nil => rfl
-  | cons j rest ih =>
-    unfold getNextNonExpired
-    split
-    · rfl
-    · rw [ih]; rfl
-
-/-- `hasHandler` and `now` are never changed by worker-level functions -/
+/-- `now` is never changed by worker-level functions -/
 structure EnvConst (e e' : Env) : Prop where
-  hasHandler : e'.hasHandler = e.hasHandler
   now : e'.now = e.now
 
-theorem EnvConst.refl (e : Env) : EnvConst e e := ⟨rfl, rfl⟩
+theorem EnvConst.refl (e : Env) : EnvConst e e := ⟨rfl⟩
 theorem EnvConst.trans {a b c : Env} (h1 : EnvConst a b) (h2 : EnvConst b c) : EnvConst a c :=
-  ⟨h2.1.trans h1.1, h2.2.trans h1.2⟩
+  ⟨h2.now.trans h1.now⟩
 
-theorem envConst_emit (e : Env) (ev : Ev) : EnvConst e (e.emit ev) := ⟨rfl, rfl⟩
-theorem envConst_discard (e : Env) (r : Reason) (j : Job) : EnvConst e (e.discard r j) := ⟨rfl, rfl⟩
+theorem envConst_emit (e : Env) (ev : Ev) : EnvConst e (e.emit ev) := ⟨rfl⟩
+theorem envConst_discard (e : Env) {h : Option Nat} (r : Reason) (j : Job) : EnvConst e (e.discard h r j) := ⟨rfl⟩
 theorem envConst_reject (e : Env) (j : Job) : EnvConst e (e.reject j) := by
   unfold Env.reject; split
   · exact envConst_emit e _
@@ -112,7 +102,7 @@ theorem envConst_accept (e : Env) (j : Job) : EnvConst e (e.accept j) := by
   · exact EnvConst.refl e
 
 theorem envConst_getNext (p : WP) (e : Env) : EnvConst e (p.getNext e).2.2 :=
-  ⟨getNextNonExpired_hasHandler p.mq p.pending e, getNextNonExpired_now' p.mq p.pending e⟩
+  ⟨getNextNonExpired_now' p.mq p.pending e⟩
 
 theorem envConst_dispatchJob (p : WP) (e : Env) (j : Job) : EnvConst e (p.dispatchJob e j).2 := by
   unfold WP.dispatchJob
@@ -129,7 +119,7 @@ theorem envConst_dispatchJob (p : WP) (e : Env) (j : Job) : EnvConst e (p.dispat
       · simp at hc
       · simp only [Option.some.injEq] at hc
         subst hc
-        exact ⟨rfl, rfl⟩
+        exact ⟨rfl⟩
 
 theorem envConst_shedOldest (limit fuel : Nat) (p : WP) (e : Env) : EnvConst e (shedOldest limit fuel p e).2 := by
   induction fuel generalizing p e with
@@ -176,7 +166,7 @@ theorem routeInner_frame (w : W) (j : Job) (hint : Option Nat) : RouteFrame w (w
   | mk t w1 =>
     rw [hc] at hs
     simp only at hs ⊢
-    have base : RouteFrame w w1 := ⟨hs.cfg, hs.poolSize, hs.queue, hs.disc, hs.drain, hs.stopped, hs.inbox, by rw [hs.env], by rw [hs.env]⟩
+    have base : RouteFrame w w1 := ⟨hs.cfg, hs.poolSize, hs.queue, hs.disc, hs.drain, hs.stopped, hs.inbox, hs.handler, by rw [hs.env]⟩
     cases t with
     | none => exact base
     | some wid =>
@@ -187,7 +177,7 @@ theorem routeInner_frame (w : W) (j : Job) (hint : Option Nat) : RouteFrame w (w
         simp only
         have he := envConst_enqueueJob p w1.env j
         exact ⟨hs.cfg, hs.poolSize, hs.queue, hs.disc, hs.drain, hs.stopped, hs.inbox,
-          by simp only; rw [he.1, hs.env], by simp only; rw [he.2, hs.env]⟩
+          hs.handler, by simp only; rw [he.now, hs.env]⟩
 
 theorem RouteFrame.refl (w : W) : RouteFrame w w := ⟨rfl, rfl, rfl, rfl, rfl, rfl, rfl, rfl, rfl⟩
 theorem RouteFrame.trans {a b c : W} (h1 : RouteFrame a b) (h2 : RouteFrame b c) : RouteFrame a c :=
@@ -195,7 +185,7 @@ theorem RouteFrame.trans {a b c : W} (h1 : RouteFrame a b) (h2 : RouteFrame b c)
    h2.7.trans h1.7, h2.8.trans h1.8, h2.9.trans h1.9⟩
 
 theorem RouterFrame.toRoute {w w' : W} (h : RouterFrame w w') : RouteFrame w w' :=
-  ⟨h.cfg, h.poolSize, h.queue, h.disc, h.drain, h.stopped, h.inbox, by rw [h.env], by rw [h.env]⟩
+  ⟨h.cfg, h.poolSize, h.queue, h.disc, h.drain, h.stopped, h.inbox, h.handler, by rw [h.env]⟩
 
 theorem routeLimited_frame (w : W) (j : Job) (hint : Option Nat) : RouteFrame w (w.routeLimited j hint).2 := by
   unfold W.routeLimited
